@@ -570,6 +570,12 @@ impl World {
     pub fn engine_config(&self) -> Option<eng::ConfigResponse> {
         self.q(&self.engine, &eng::QueryMsg::Config {})
     }
+    pub fn engine_oi(&self) -> u128 {
+        self.raw(&self.engine, &to_length_prefixed(b"state"))
+            .and_then(|v| serde_json::from_slice::<RawEngineState>(&v).ok())
+            .map(|s| s.open_interest_notional.u128())
+            .unwrap_or(0)
+    }
     pub fn engine_paused(&self) -> bool {
         self.raw(&self.engine, &to_length_prefixed(b"state"))
             .and_then(|v| serde_json::from_slice::<RawEngineState>(&v).ok())
